@@ -64,7 +64,8 @@ claim("C01", "Chain of contracts: P3 on each compute_domains_X under contract; B
       "The composition 'every enabled constraint holds at a BOUND state' (acceptance-predicate theorem) is checked by the bounded engine suite, not yet deductively.",
       "contract-based deductive verification + bounded engine suite", level="other")
 claim("C02", "Loop contracts of solve_one / BacktrackSolver.solve: each search resumes from a well-formed stack, the branching contract (C09) partitions, the variable heuristics return an open decision domain or -1 only when none is left, "
-      "exhaustion is reported only with an empty stack. The ghost-set invariant (disjoint cover of the remaining solutions) is checked by the bounded engine suite against brute force under all 24 configurations.",
+      "exhaustion is reported only with an empty stack; stack levels stay pairwise separated on the recorded split domain; semantic layer (ghost solution sigma, uninterpreted relations): BC and shaving keep every solution of the box, "
+      "and a search (solve_one#sem) never loses a solution that is somewhere in the stack. The last composition step (delivered exactly once over a whole enumeration) is checked by the bounded engine suite against brute force under all 24 configurations.",
       "contract-based deductive verification + bounded engine suite", level="other")
 claim("C03", "Loop contracts of BacktrackSolver.optimize / optimize_and_queue (both directions): after each improving solution the solver is reset to the root, the objective view bound is set just past the incumbent (through the offset), "
       "the incumbent stays inside the declared domain, the loop measure decreases; decrease_max / increase_min contracts; MultiprocessingSolver.optimize keeps the extremal message. Optimality w.r.t. the solution set is checked by the bounded engine suite.",
